@@ -89,7 +89,11 @@ func (w *stockWriter) Write(p []byte) (int, error) {
 
 type stockCounters struct {
 	sent, sendErr, recv int
+	unformatted         int // sinks that did not find the rendering their own pipeline's formatter had just stored
 }
+
+//go:norace
+func (c *stockCounters) lostRendering() { c.unformatted++ }
 
 //go:norace
 func (c *stockCounters) add(sent, errs, recv int) { c.sent += sent; c.sendErr += errs; c.recv += recv }
@@ -115,10 +119,18 @@ func stockSender(b *el.Broker, cnt *stockCounters, id, n int, gatedEvery int, ro
 		if gatedEvery > 0 && i%gatedEvery == 0 {
 			payload = &gated.Payload{ID: fmt.Sprintf("g%d", id%2), Flush: i%2 == 1, Detail: map[string]interface{}{"i": i}}
 		}
-		_, err := b.Send(context.Background(), "t", payload)
+		st, err := b.Send(context.Background(), "t", payload)
 		e := 0
 		if err != nil {
 			e = 1
+			if strings.Contains(err.Error(), "event was not marshaled") {
+				cnt.lostRendering()
+			}
+		}
+		for _, w := range st.Warnings {
+			if strings.Contains(w.Error(), "event was not marshaled") {
+				cnt.lostRendering()
+			}
 		}
 		cnt.add(1, e, 0)
 	}
@@ -380,6 +392,11 @@ func runStock(rc *RunCtx) {
 	if sim.Stuck {
 		rc.Failf("C19.stuck", stuckClass(sim), "stock composition did not finish:\n  %s\n%s", strings.Join(sim.StuckInfo, "\n  "), sim.Deadlock)
 		return
+	}
+	// every sink of these compositions follows a formatter that stores exactly the rendering it writes: a sink
+	// that does not find it has lost an entry of the event's format table to another pipeline's formatter
+	if n := cnt.snapshot().unformatted; n > 0 && !simrt.RaceBuild {
+		rc.Failf("C19.corrupt-output", "rendering-lost", "%d sink invocation(s) failed with \"event was not marshaled\" although the formatter in front of each sink stores the rendering it writes: an entry of the shared event's format table was lost while several pipelines formatted the event", n)
 	}
 	// output integrity: every line a writer / file sink received is one whole JSON document
 	checkLines := func(where string, data []byte) {
